@@ -2,9 +2,12 @@
 (DESIGN 8).  A script only calls the library and logs; every judgement is made
 by the trace specification."""
 import hashlib
+import json as _json
 import os
 import random
 import re
+import subprocess
+import sys
 
 import names
 import observe
@@ -74,6 +77,7 @@ def mk_trace(pid, cid, k, case, naming, events, extra=None):
     tid = '%s-%s-n%d' % (pid, cid, k)
     meta = {'hist': case.get('hist', []), 'model': case.get('model', EMPTY_MODEL), 'naming': naming.describe(),
             'tags': case_tags(case)}
+    meta['case'] = case          # kept by reference; written out only into replay files
     if 'kind' in case:
         meta['history'] = {k: case[k] for k in ('kind', 'op', 'seq', 'gen') if k in case}
     if extra:
@@ -261,13 +265,30 @@ def prepare_hist(cases, tier, seed):
                 break
         else:
             raise RuntimeError('no pool model for pick %d' % len(pool))
+    # isolated baselines: one fresh interpreter per pool model
+    iod = os.environ.get('VERIF_IODIR', '/verif/.work/io')
+    os.makedirs(iod, exist_ok=True)
+    procs = []
+    for i, m in enumerate(pool):
+        cp, op_ = os.path.join(iod, 'iso%d.json' % i), os.path.join(iod, 'iso%d.out.json' % i)
+        with open(cp, 'w') as f:
+            _json.dump({'hist': m['hist'], 'model': m['model']}, f)
+        procs.append((op_, subprocess.Popen([sys.executable, os.path.join(os.path.dirname(os.path.abspath(__file__)),
+                                                                             'isolated_ops.py'), cp, op_, str(seed)],
+                                            stdout=subprocess.DEVNULL, stderr=subprocess.PIPE)))
+    iso = []
+    for op_, p in procs:
+        _, err = p.communicate()
+        if p.returncode != 0:
+            raise RuntimeError('isolated baseline failed: ' + err.decode(errors='replace')[-2000:])
+        iso.append(_json.load(open(op_)))
     out = []
     for cid, c in cases:
         if 'model' in c:
             continue
         if c['kind'] == 'exec' and not c['seq']:
             continue
-        c = dict(c, pool=pool, tags=['hist:' + c['kind'], 'op:' + c['op'], 'len:%d' % len(c['seq'])]
+        c = dict(c, pool=pool, iso=iso, tags=['hist:' + c['kind'], 'op:' + c['op'], 'len:%d' % len(c['seq'])]
                  + (['shape:' + c['gen']['shape']] if c['kind'] == 'genattr' else []))
         out.append((cid, c))
     return out
@@ -298,7 +319,10 @@ def script_c19(case, naming, tier, seed):
         return events, None
     op = case['op']
     built = {}
-    for i in sorted(set(case['seq'])):                       # baseline: a fresh object per model
+    for i in sorted(set(case['seq'])):
+        # baseline 1: the isolated results (fresh interpreter, this model only)
+        events.extend(e for e in case['iso'][i - 1] if e['a'] == 'Load' or e['args']['op'] == op)
+        # baseline 2: a fresh object in this process
         b, ev = load_event(pool[i - 1], naming)
         built[i] = (b, ev)
         events.append(ev)
@@ -355,7 +379,7 @@ def roundtrip_script(fmt):
     return script
 
 
-ALL_NAME_CLASSES = ('space', 'punct', 'uvlkw', 'opword', 'digit0', 'under0', 'nonascii', 'quote', 'dot', 'apos')
+ALL_NAME_CLASSES = ('space', 'edgespace', 'punct', 'uvlkw', 'opword', 'digit0', 'under0', 'nonascii', 'quote', 'dot', 'apos')
 
 
 def fam_names(fmt):
@@ -375,7 +399,7 @@ prop('C06', fam_names('afm'), name_classes=('afmword',), base_class='afmword', n
      name_stride={'quick': 3, 'thorough': 1},
      assumptions=['names match the AFM WORD token; attribute names the LOWERCASE token; enumerated domain elements, '
                   'default and null values are text tokens; range bounds are integers'])(roundtrip_script('afm'))
-UVL_NAME_CLASSES = ('space', 'punct', 'uvlkw', 'opword', 'digit0', 'under0', 'nonascii')
+UVL_NAME_CLASSES = ('space', 'edgespace', 'punct', 'uvlkw', 'opword', 'digit0', 'under0', 'nonascii')
 prop('C01', fam_names('uvl'), name_classes=UVL_NAME_CLASSES, naming_matters=True,
      assumptions=['names carry no double quote, dot or newline; strings no apostrophe; floats have a plain decimal repr'])(
     roundtrip_script('uvl'))
@@ -474,11 +498,11 @@ def export_script(langs):
     return script
 
 
-prop('C10', ['Tree', 'TreeCtc'], naming_matters=False,
+prop('C10', ['Tree', 'TreeCtc', 'Clafer-Ctc2'], naming_matters=False,
      assumptions=['the .exp precedence is not < and < or < -> < <->, binary connectives left-associative',
                   'SXFM identifiers may be bare words or double-quoted strings'],
      trusted=['harness/parse_export.py (syntax of SXFM and .exp only)'])(export_script(['splot', 'pl']))
-prop('C11', ['Clafer-Tree', 'Clafer-Ctc', 'Clafer-Attr'], name_classes=('space', 'punct', 'opword'), naming_matters=True,
+prop('C11', ['Clafer-Tree', 'Clafer-Ctc', 'Clafer-Ctc2', 'Clafer-Attr'], name_classes=('space', 'punct', 'opword'), naming_matters=True,
      attr_names_too=True,
      assumptions=['both ! and not are accepted as Clafer negation', 'identifiers may be bare words or double-quoted strings'],
      trusted=['harness/parse_export.py (syntax of the Clafer subset only)'])(export_script(['clafer']))
